@@ -19,6 +19,9 @@ LEVEL_TEXT = (
     "and permutation equivariance as values are not decided.")
 
 
+COORDS_MOD = "coords"
+
+
 def _template(w):
     """Symbolic value of the string returned by xyz_str: a list of pieces
     ('lit', text) | ('hole', expr, format spec) | ('alt',) for branches that
@@ -55,6 +58,8 @@ def _template(w):
             return out
         if isinstance(e, ast.BinOp) and isinstance(e.op, ast.Add):
             return val(e.left, roles) + val(e.right, roles)
+        if isinstance(e, ast.IfExp):
+            return merge(val(e.body, roles), val(e.orelse, roles))
         if isinstance(e, ast.Name):
             if e.id in env:
                 return list(env[e.id])
@@ -304,7 +309,14 @@ def run(prog: Program, res: Result, tier: str) -> None:
     # symbol width
     symbols = const(prog.module_assign("periodic_table", "SYMBOLS"))
     longest = max(len(s) for s in symbols.values())
-    m = re.search(r"\('atom', 'U(\d+)'\)", rt)
+    dt_txt = rt
+    if "dtype" in kw and isinstance(kw["dtype"], ast.Name):
+        try:
+            dt_txt += " " + norm(prog.module_assign(COORDS_MOD, kw["dtype"].id),
+                                 400)
+        except Exception:
+            pass
+    m = re.search(r"\('atom', 'U(\d+)'\)", dt_txt)
     inst = f"symbol field width U{m.group(1) if m else '?'} >= {longest}"
     if m and int(m.group(1)) >= longest:
         res.ok("X-FORMAT", inst, r.loc())
@@ -315,6 +327,13 @@ def run(prog: Program, res: Result, tier: str) -> None:
         res.unrecognised("X-FORMAT", inst, r.loc(), "dtype of the symbol "
                          "column not found")
     inst = "elements restored through PERIODIC_TABLE, columns x, y, z in order"
+    # the structured array under its role name
+    dnames = [n_.targets[0].id for n_ in ast.walk(r.node)
+              if isinstance(n_, ast.Assign) and len(n_.targets) == 1
+              and isinstance(n_.targets[0], ast.Name) and n_.value is load]
+    if len(dnames) == 1 and dnames[0] != "data":
+        from ..iso import rename_locals
+        r = rename_locals(r, {dnames[0]: "data"})
     cs = [n for n in ast.walk(r.node) if isinstance(n, ast.Call)
           and call_name(n) in ("np.column_stack", "np.stack", "np.array",
                                "np.vstack", "np.transpose")
@@ -437,11 +456,17 @@ def run(prog: Program, res: Result, tier: str) -> None:
                          "how the off-diagonal entries are enumerated")
     bfd = prog.cls("BondsFromDistance")
     arr = bfd.methods.get("array")
-    cmp_ = [n for n in ast.walk(arr.node) if isinstance(n, ast.Compare)
-            and "pairwise_distances" in norm(n.left)]
+    from ..pe import resolve
+    cmp_ = []
+    for n in ast.walk(arr.node):
+        if isinstance(n, ast.Compare) and len(n.ops) == 1:
+            full = resolve(n, arr.node)
+            if isinstance(full, ast.Compare) and "pairwise_distances" in norm(
+                    full.left, 300):
+                cmp_.append(full)
     inst = "BondsFromDistance.array: distance < cut-off (strict)"
     if cmp_ and isinstance(cmp_[0].ops[0], ast.Lt) and \
-            "connectivity_cutoff.array(" in norm(cmp_[0].comparators[0]):
+            "connectivity_cutoff.array(" in norm(cmp_[0].comparators[0], 300):
         res.ok("X-CONN", inst, arr.loc(cmp_[0]))
     else:
         res.bad("X-CONN", "array comparison", arr.loc(),
